@@ -2088,7 +2088,7 @@ def _canonical_foreach(mods: dict[str, Module], log: list[str]) -> None:
     (1) `i = a; while i < n: BODY; i += 1` (i not otherwise stored in BODY, no break/continue, i dead afterwards) is `for i in range(a, n): BODY`;
     (2) `for i in range(len(X))` / `range(0, len(X))` whose body uses `i` only as `X[i]` (X a pure expression nothing in the body can change, possibly a
         `tuple(Y)` / `list(Y)` snapshot of such a Y) is `for x in X` with `x` for `X[i]`."""
-    n1 = n2 = 0
+    n1 = n2 = n3 = 0
     uid = 0
     for mod in mods.values():
         for q, _, fn in _functions_of(mod):
@@ -2187,6 +2187,30 @@ def _canonical_foreach(mods: dict[str, Module], log: list[str]) -> None:
                 lp.iter = base
                 ast.fix_missing_locations(fn)
                 n2 += 1
+            # (3) enumerate whose counter is never read: `for _k, x in enumerate(X[, start])` is `for x in X`
+            for node in ast.walk(fn):
+                gens = node.generators if isinstance(node, (ast.ListComp, ast.GeneratorExp, ast.SetComp, ast.DictComp)) else [node] if isinstance(node, ast.For) else []
+                for gnode in gens:
+                    it, tg = gnode.iter, gnode.target
+                    if not (isinstance(it, ast.Call) and isinstance(it.func, ast.Name) and it.func.id == "enumerate" and it.args and isinstance(tg, ast.Tuple) and len(tg.elts) == 2
+                            and isinstance(tg.elts[0], ast.Name)):
+                        continue
+                    cnt = tg.elts[0].id
+                    scope = [node] if not isinstance(node, ast.For) else [*node.body, *node.orelse]
+                    reads = [x for sc in scope for x in ast.walk(sc) if isinstance(x, ast.Name) and x.id == cnt and isinstance(x.ctx, ast.Load)]
+                    after = False
+                    if isinstance(node, ast.For):
+                        after = any(isinstance(x, ast.Name) and x.id == cnt and isinstance(x.ctx, ast.Load) for x in ast.walk(fn)
+                                    if not any(x is y for sc in scope for y in ast.walk(sc)))
+                    if reads or after:
+                        continue
+                    gnode.iter = it.args[0]
+                    gnode.target = tg.elts[1]
+                    n3 += 1
+            if n3:
+                ast.fix_missing_locations(fn)
+    if n3:
+        log.append(f"{n3} enumerate() whose counter is never read dropped")
     if n1:
         log.append(f"{n1} index-driven while loop(s) read as for loops over a range")
     if n2:
